@@ -194,7 +194,7 @@ def _shard(pid, tier, seed, shard, nshards, examples, no_shrink):
 
 
 def write_replay(pid, case, detail):
-    d = os.path.join(VERIF, 'replays')
+    d = os.environ.get('VERIF_REPLAY_DIR') or os.path.join(VERIF, 'replays')
     os.makedirs(d, exist_ok=True)
     path = os.path.join(d, f'{pid}-{fingerprint(case)}.json')
     with open(path, 'w') as f:
@@ -268,20 +268,24 @@ def main(argv=None):
     try:
         known = known_ids(pid)
         for e in known_all:
-            if e['property'] != pid or 'witness' not in e:
+            if e['property'] != pid:
                 continue
-            out = mod.run_case(e['witness'])
-            if e['status'] == 'known':
-                if not out.ok:
-                    if out.known == e['id']:
-                        known_lines.append(f"KNOWN-FINDING: property={pid} {e['id']} {e['what']}")
-                    else:
-                        violations.append((e['witness'], f"witness of {e['id']} fails outside its "
-                                           f"class: {out.detail}"))
-                # witness passes: finding no longer reproduces; print nothing
-            else:  # fixed: suppresses nothing
-                if not out.ok:
-                    violations.append((e['witness'], f"fixed finding {e['id']} is back: {out.detail}"))
+            reported = False
+            for w in e.get('witnesses', []):
+                out = mod.run_case(w)
+                if e['status'] == 'known':
+                    if not out.ok:
+                        if out.known == e['id']:
+                            if not reported:
+                                known_lines.append(f"KNOWN-FINDING: property={pid} {e['id']} {e['what']}")
+                                reported = True
+                        else:
+                            violations.append((w, f"witness of {e['id']} fails outside its "
+                                               f"class: {out.detail}"))
+                    # witness passes: finding no longer reproduces; print nothing
+                else:  # fixed: suppresses nothing
+                    if not out.ok:
+                        violations.append((w, f"fixed finding {e['id']} is back: {out.detail}"))
         for path in _stored_replays(pid):
             with open(path) as f:
                 data = json.load(f)
